@@ -79,7 +79,11 @@ def shard_direct(sh, part):
     from outrank.algorithms.importance_estimator import rank_features_3MR
     rng = sh.rng('direct', part)
     reps = 150 if sh.tier == 'quick' else 3000
+    persistent = None
     for t in range(reps):
+        if t % 4 == 3 and persistent is not None:
+            pass
+        reuse_names = (t % 4 == 3 and persistent is not None)
         n = rng.choice([1, 2, 3, 4, 5, 8, 12, 20, 30])
         name_kind = rng.choice(['str', 'str', 'int', 'hostile'])
         if name_kind == 'int':
@@ -91,6 +95,9 @@ def shard_direct(sh, part):
         else:
             names = ['f%d' % i for i in range(n)]
             rng.shuffle(names)
+        if reuse_names:
+            names = list(persistent[0])
+            n = len(names)
         grid = rng.choice(['dyadic', 'float', 'few-values', 'near-ties', 'large-magnitude'])
         tie_base = rng.uniform(0.2, 0.8)
 
@@ -112,6 +119,8 @@ def shard_direct(sh, part):
             c = val(neg)
             relevance = {f: c for f in names}
         density = rng.choice([1.0, 1.0, 0.6, 0.3, 0.0])
+        if reuse_names:
+            density = 1.0
         redundancy, relation = {}, {}
         for d in (redundancy, relation):
             for x, y in itertools.combinations(names, 2):
@@ -129,7 +138,21 @@ def shard_direct(sh, part):
             kwargs = {'strategy': strategy, 'alpha': alpha, 'beta': beta}
         else:
             strategy, alpha, beta = 'median', 1.0, 1.0
-        ok, out = sh.call('permutation-with-ranks', 'rank_features_3MR', rank_features_3MR, dict(relevance), dict(redundancy), dict(relation), **kwargs)
+        if t % 4 == 3 and persistent is not None and set(persistent[0]) == set(relevance):
+            # long-lived score dictionaries refreshed per batch: same objects, same keys, new values
+            pr, pd_, pl = persistent
+            pr.clear(); pr.update(relevance)
+            for d_old, d_new in ((pd_, redundancy), (pl, relation)):
+                if set(d_old) == set(d_new):
+                    for k_ in d_new:
+                        d_old[k_] = d_new[k_]
+                else:
+                    d_old.clear(); d_old.update(d_new)
+            args3 = (pr, pd_, pl)
+        else:
+            args3 = (dict(relevance), dict(redundancy), dict(relation))
+            persistent = args3
+        ok, out = sh.call('permutation-with-ranks', 'rank_features_3MR', rank_features_3MR, *args3, **kwargs)
         if not ok:
             continue
         nontrivial = verify(sh, out, relevance, redundancy, relation, strategy, alpha, beta, 'direct')
